@@ -36,8 +36,10 @@ CHECKS = {
         text="TLC proves C01 on the implementation-shaped Tokenizer spec for every parameter tuple x validity stream of the tier "
              "grid; every exported terminal behaviour is replayed through the real StreamTokenizer; seeded long runs of the real "
              "code (5 frame types, 2 validator kinds, 3 delivery modes) are judged by TLC with the same C01 formula on a free "
-             "observation trace spec. Bounded-exhaustive design proof + conformance in both directions." + TOK_EXTRA,
-        ref="DESIGN.md 5/C01, 3.2, 4.4", technique="TLA+ model checking (TLC) + spec->code behaviour replay + code->spec trace validation",
+             "observation trace spec. Leg F: runs of the real tokenizer constructed with non-integral lengths (0.3/0.1, k+-1e-9, "
+             "k+.5, ...), judged by TLC on the C01 monitor only (DESIGN 11.3/O7). Bounded-exhaustive design proof + conformance in "
+             "both directions." + TOK_EXTRA,
+        ref="DESIGN.md 5/C01, 3.2, 4.4, 11.3/O7", technique="TLA+ model checking (TLC) + spec->code behaviour replay + code->spec trace validation",
         note=TOK_NOTE),
     "C02": dict(
         text="As C01 with formula C02 (length bounds, remainder rule); the constructor accept/reject decision is compared with "
